@@ -12,7 +12,10 @@ mkdir -p /tmp/st/ev-$S-$P
 SONIC_REPO=$W VERIF_EVIDENCE_DIR=/tmp/st/ev-$S-$P /verif/run.sh $P $T > /tmp/st/$S-$P.log 2>&1
 rc=$?
 git -C /repo worktree remove --force $W >/dev/null 2>&1
-if [ $rc -eq 1 ] && grep -q "^VIOLATION property=$P" /tmp/st/$S-$P.log; then echo "$S vs $P $T: CAUGHT ($(grep -c '^VIOLATION' /tmp/st/$S-$P.log) lines; first: $(grep -m1 '^VIOLATION' /tmp/st/$S-$P.log | cut -c1-220))";
+{
+if [ $rc -eq 1 ] && grep -aq "^VIOLATION property=$P" /tmp/st/$S-$P.log; then echo "$S vs $P $T: CAUGHT ($(grep -ac '^VIOLATION' /tmp/st/$S-$P.log) lines; first: $(grep -a -m1 '^VIOLATION' /tmp/st/$S-$P.log | cut -c1-220))";
 elif [ $rc -eq 0 ]; then echo "$S vs $P $T: MISSED (exit 0)";
 else echo "$S vs $P $T: exit $rc (see /tmp/st/$S-$P.log: $(tail -2 /tmp/st/$S-$P.log | tr '\n' ' ' | cut -c1-200))"; fi
+} | tee /tmp/st/$S-$P.result
 rm -rf /tmp/st/ev-$S-$P
+tail -1 /tmp/st/$S-$P.result >> /verif/seeded/results.log 2>/dev/null
